@@ -15,6 +15,14 @@ CHECKS = {
         "Reference codec transcribed from PS3.8 9.3 / PS3.7 D.3.3 (vk/ref/codec.py); sub-item order is not prescribed by the standard and is compared as a multiset.",
         "3/C01",
     ),
+    "C02": (
+        "exploration",
+        "enum",
+        "bounded-exhaustive mutation enumeration of received byte strings through the real provider read path, with re-encode/re-decode stability and a conformant-PDU acceptance list",
+        "42k inputs per run: the full grid of 256 type bytes x 11 length values x 3 body shapes; for 19 seed PDUs (built by the reference codec, one per PDU type and sub-item kind) every prefix, every single-byte substitution by 7 values, every length field set to 7 boundary values, every item-type byte replaced by every other value, extensions, all permutations / duplications / omissions of the variable items, control and non-ASCII bytes; 15 PDUs that conform to PS3.8 but that pynetdicom never emits.  Each goes through the real DULServiceProvider._read_pdu_data over an in-memory socket: no exception or hang, exactly one event, a decoded PDU must re-encode and re-decode to itself, conformant PDUs must be accepted (and an A-ASSOCIATE-RQ must take the provider from Sta2 to Sta3).",
+        "A decoder running more than 5 s on one input counts as a hang; conformance of the unusual list is established by the reference decoder and PS3.8 9.3.",
+        "3/C02",
+    ),
     "C03": (
         "model_checking",
         "sim",
